@@ -1051,6 +1051,9 @@ func checkC20(P *Prog, r *Result) {
 		})
 	}
 	r.floor("C20/regexp-global", 2)
+	// the verdict is reported: an issue raised by a failing built-in test is not swallowed by a catch flag left
+	// on the node's context by a sibling or an earlier element (C02's not-swallowed rule)
+	shareRule(P, r, checkC02, "C02/not-swallowed", nil, "C20/verdict-reported", 15)
 	_ = R
 }
 
